@@ -26,6 +26,8 @@ ASSUMPTIONS = [
     "formats are anchored with ^...$ (re.match only anchors the start)",
 ]
 NT_FLOOR = 0.4
+# coverage-guided complement (sv/fuzz.py): strategy -> number of cases
+FUZZ = {"thorough": {"numeric": 15000}}
 _uid = itertools.count()
 
 DIMS = {"length": ["m", "cm", "km", "mm"], "time": ["s", "min", "ms"], "mass": ["kg", "g"], "energy": ["J", "erg", "kJ"]}
